@@ -6,8 +6,9 @@ C19's first guard runs admissibility in the CONVERSE direction ("pool r was used
 could host the pod"), so this alphabet is restricted to what WeightsGuards.tla: FeasibleFresh models
 EXACTLY (DESIGN 2.5):
 
-  * no inter-pod constraints, no volumes, no preferred node affinity anywhere in the scenario;
-  * a pod constrains every label key at most once (node selector or ONE expression of its required term), so
+  * no inter-pod constraints and no volumes anywhere in the scenario; preferred node affinity with distinct weights (Karpenter schedules
+    the heaviest preference as if required and relaxes it away - FeasibleFresh reads the pod the same way);
+  * a pod constrains every label key at most once (node selector, ONE expression of its required term or ONE preferred term), so
     the known representation losses of Karpenter's requirement algebra (C12 findings: contradictory In sets,
     Exists+NotIn, bounded NotIn) cannot decide a verdict here; `gen` is only ever constrained by Gt / Lt / In;
   * no capacity-override offerings (limits are charged with the base capacity of a type);
@@ -186,12 +187,22 @@ def archetypes(rng, types, pools):
     def it_notin(p): p["terms"] = [p["terms"][0] + [sc.expr("it", "NotIn", [rng.choice(tn)])]]; return "it"
     def pool_sel(p): p["sel"]["pool"] = rng.choice(pn); return "pool"
     def pool_notin(p): p["terms"] = [p["terms"][0] + [sc.expr("pool", "NotIn", [rng.choice(pn)])]]; return "pool"
+    def pref_one(p):
+        # ONE preferred node-affinity term on a key the pod does not constrain otherwise; distinct weights per pod
+        key = rng.choice(["zone", "zone", "ct", "it", "team", "arch"])
+        vals = {"zone": [rng.choice(ZONES)], "ct": [rng.choice(["spot", "od"])], "it": [rng.choice(tn)], "team": [rng.choice(["x", "y"])],
+                "arch": [rng.choice(["amd64", "arm64"])]}[key]
+        p["pref"] = p["pref"] + [{"weight": 10 + 7 * len(p["pref"]) + rng.choice([0, 30]) * (len(p["pref"]) == 0), "exprs": [sc.expr(key, "In", vals)]}]
+        if len({x["weight"] for x in p["pref"]}) != len(p["pref"]):
+            p["pref"][-1]["weight"] = max(x["weight"] for x in p["pref"]) + 1
+        return key
     def tolerate(p): p["tol"] = [dict(sc.TOL_TAINT, effect=rng.choice(["NoSchedule", "NoSchedule", "", "NoExecute"]))]; return "#tol"
     def tolerate_all(p): p["tol"] = [dict(sc.TOL_ALL)]; return "#tol"
     def port80(p): p["ports"] = [{"port": 80, "ip": "", "proto": "TCP"}]; return "#port"
     def port9100(p): p["ports"] = [{"port": 9100, "ip": "", "proto": "TCP"}]; return "#port"
     return [sel_zone, term_zone, zone_notin, notin_spot, sel_ct, team_in, team_sel, team_notin, team_dne, team_exists, gen_gt, gen_lt, gen_in,
-            arch_in, it_sel, it_notin, pool_sel, pool_notin, tolerate, tolerate, tolerate_all, tolerate_all, port80, port9100]
+            arch_in, it_sel, it_notin, pool_sel, pool_notin, tolerate, tolerate, tolerate_all, tolerate_all, port80, port9100, pref_one, pref_one,
+            pref_one]
 
 
 def gen_pod(rng, name, arch, big):
